@@ -41,6 +41,9 @@ REQUIRED_MONITORS = ["transparent", "no-raise", "no-deadlock", "cache-files", "r
 # resources
 
 def res_xml(name, includes, broken=False):
+    if broken == "sectionless":
+        # parses fine, but holds no Section an include without a path could take
+        return '<?xml version="1.0" encoding="UTF-8"?>\n<odML version="1.1"><author>%s</author></odML>' % name
     if broken:
         return "<odML version=\"1.1\"><section><name>x</name></odML"
     # the XML declaration is spelled the way one or another XML writer spells it (or is left out), by resource name
@@ -83,6 +86,8 @@ GRAPHS = {
     "good-then-missing": {"A": [("B", "/B_main"), ("M", "/M_main")], "B": []},
     "unparsable-then-good": {"A": [("U", "/x"), ("B", "/B_main")], "U": "broken", "B": []},
     "unparsable-leaf": {"A": [("U", "/x")], "U": "broken"},
+    "sectionless-leaf": {"A": [("E", None)], "E": "sectionless"},
+    "sectionless-then-good": {"A": [("E", None), ("B", "/B_main")], "E": "sectionless", "B": []},
     "missing-root": {},
     "vanished-root": {"A": []},      # the resource is removed after the cache was filled
 }
@@ -92,7 +97,7 @@ def expected_names(gname, n, _seen=()):
     """Independent of the library: the Section / Property names of resource n after all its includes were resolved,
     as nested dicts {section name: (set of property names, {sub-sections})}, derived from the graph table alone."""
     incs = GRAPHS[gname].get(n)
-    if incs is None or incs == "broken" or n in _seen:
+    if incs is None or incs in ("broken", "sectionless") or n in _seen:
         return None
 
     def target(t, path):
@@ -139,8 +144,8 @@ def build_graph(gname, sdir, tag):
     urls = {n: "file://" + os.path.join(d, n + ".xml") for n in list(GRAPHS[gname]) + ["M", "A"]}
     for n, incs in GRAPHS[gname].items():
         with open(os.path.join(d, n + ".xml"), "w") as f:
-            if incs == "broken":
-                f.write(res_xml(n, [], broken=True))
+            if incs in ("broken", "sectionless"):
+                f.write(res_xml(n, [], broken=True if incs == "broken" else incs))
             else:
                 f.write(res_xml(n, [(urls[i[0]],) + tuple(i[1:]) for i in incs]))
     return urls
@@ -149,8 +154,8 @@ def build_graph(gname, sdir, tag):
 def rewrite_graph(gname, urls):
     for n, incs in GRAPHS[gname].items():
         with open(urls[n][7:], "w") as f:
-            if incs == "broken":
-                f.write(res_xml(n, [], broken=True))
+            if incs in ("broken", "sectionless"):
+                f.write(res_xml(n, [], broken=True if incs == "broken" else incs))
             else:
                 f.write(res_xml(n, [(urls[i[0]],) + tuple(i[1:]) for i in incs]))
 
@@ -588,7 +593,7 @@ def _rank_of(s, i):
 def scenarios():
     out = []
     for g in ("single", "chain", "long-chain", "nested", "nested-whole", "diamond", "missing-then-good", "good-then-missing", "unparsable-then-good",
-              "missing-leaf", "unparsable-leaf", "missing-root", "vanished-root"):
+              "missing-leaf", "unparsable-leaf", "sectionless-leaf", "sectionless-then-good", "missing-root", "vanished-root"):
         for script in SCRIPTS:
             if g == "vanished-root":
                 if script in ("load-twice", "deferred+load", "template-load", "template-load-twice"):
@@ -597,7 +602,8 @@ def scenarios():
                 continue
             if "B" in [st[1] for st in SCRIPTS[script]] and g not in ("chain", "diamond", "nested", "nested-whole"):
                 continue
-            if g in ("missing-then-good", "good-then-missing", "unparsable-then-good", "long-chain") and script not in (
+            if g in ("missing-then-good", "good-then-missing", "unparsable-then-good", "long-chain", "sectionless-leaf",
+                     "sectionless-then-good") and script not in (
                     "load", "deferred+load", "template-load", "load-twice", "refresh"):
                 continue
             if g == "missing-root" and script not in ("load", "deferred+load", "template-load", "repository", "load-twice",
